@@ -49,8 +49,22 @@ OTHER_WRITES = {"cw2::set_contract_version": "cw2:contract_info"}
 NO_INLINE_PREFIX = "margined_common::integer::"
 
 
+# the operations of the signed integer type that the value model treats as algebraic primitives (normal forms, sign
+# tests); any OTHER function of that type - a constructor or helper added by a refactoring - is ordinary workspace code
+# and is inlined / expanded like every other helper
+_INTEGER_PRIMITIVES = {
+    "new_positive", "new_negative", "zero", "default", "from", "abs", "invert_sign", "is_negative", "is_positive", "is_zero",
+    "add", "sub", "mul", "div", "checked_add", "checked_sub", "checked_mul", "checked_div", "add_assign", "sub_assign",
+    "mul_assign", "div_assign", "neg", "cmp", "partial_cmp", "eq", "ne", "lt", "le", "gt", "ge", "max", "min", "fmt", "from_str",
+    "to_string", "clone", "serialize", "deserialize",
+}
+
+
 def is_integer_fn(pretty):
-    return pretty.startswith("margined_common::") and "integer::Integer" in pretty
+    if not (pretty.startswith("margined_common::") and "integer::Integer" in pretty):
+        return False
+    last = pretty.split("::")[-1].split("<")[0]
+    return last in _INTEGER_PRIMITIVES
 
 
 class Inter:
